@@ -1172,6 +1172,9 @@ def _accumulate_group(output_fields, group_list):
                 try:
                     values.append(_parse_expression(key, doc))
                 except KeyError:
+                    if operator in ('$first', '$last'):
+                        # The value of the first (last) document, null if it is missing there.
+                        values.append(None)
                     continue
             if operator in _GROUPING_OPERATOR_MAP:
                 doc_dict[field] = _GROUPING_OPERATOR_MAP[operator](values)
